@@ -247,6 +247,13 @@ def run_c(spec, acc):
                         reader.feed_eof()
                         sim.loop.run_ready()
                     writer.fail = ConnectionResetError("peer gone") if release_first else None
+                    if release_first:
+                        # an hour passes before the database is released (a long transaction, a
+                        # large file being hashed): every timer of the server falls due; a
+                        # request received in full must still be applied in full afterwards
+                        from ..vloop import advance
+
+                        advance(sim.loop, 3600.0)
                     release.set_result(None)
                     sim.loop.run_ready()
                     if eof_point == "after_lock_released":
